@@ -55,7 +55,7 @@ fn strategy(tier: Tier) -> BoxedStrategy<Case> {
                                     steps.push(Step::Peer(PeerOp::Ack { back: 0, wnd, sack: None }));
                                 }
                             }
-                            Case { sp: SpCase { sock: sock.clone(), incoming, peer_isn, conn_id, peer_wnd: wnd, complete_handshake: true, key, steps, linger_ms: 50, discipline: true } }
+                            Case { sp: SpCase { sock: sock.clone(), incoming, peer_isn, conn_id, peer_wnd: wnd, complete_handshake: true, key, steps, linger_ms: 50, discipline: true, bystander: None } }
                         })
                 })
         })
